@@ -207,6 +207,56 @@ func runRepo(v Vec, dir string) string {
 	return ""
 }
 
+// runRepoHandle: the same through GoGitRepo with a clock handle that is kept (as code holding on to a clock does): after every
+// (re)opening the handle is asked once, operations go alternately through the handle and through the repository, and both have to
+// show the same clock all along - there is one clock per name in a process, whoever asks for it.
+func runRepoHandle(v Vec, dir string) string {
+	repo, err := repository.InitGoGitRepo(dir, "git-bug")
+	hx.Must(err)
+	h, err := repo.GetOrCreateClock("x-edit")
+	hx.Must(err)
+	file := filepath.Join(dir, ".git", "git-bug", "clocks", "x-edit")
+	for i, o := range v.Ops {
+		ret := 0
+		viaHandle := i%2 == 0
+		switch o.Op {
+		case "inc":
+			var t lamport.Time
+			if viaHandle {
+				t, err = h.Increment()
+			} else {
+				t, err = repo.Increment("x-edit")
+			}
+			hx.Must(err)
+			ret = int(t)
+		case "witness":
+			if viaHandle {
+				hx.Must(h.Witness(lamport.Time(o.V)))
+			} else {
+				hx.Must(repo.Witness("x-edit", lamport.Time(o.V)))
+			}
+		case "reload":
+			_ = repo.Close()
+			repo, err = repository.OpenGoGitRepo(dir, "git-bug", nil)
+			if err != nil {
+				return fmt.Sprintf("op %d: reopen failed: %v", i, err)
+			}
+			h, err = repo.GetOrCreateClock("x-edit")
+			hx.Must(err)
+		}
+		c, err := repo.GetOrCreateClock("x-edit")
+		hx.Must(err)
+		if c.Time() != h.Time() {
+			return fmt.Sprintf("op %d: the clock handle kept since the repository was opened shows %d, the repository's clock %d", i, h.Time(), c.Time())
+		}
+		if why := check(i, v.Exp[i], int(h.Time()), readFile(file), ret, true); why != "" {
+			return why
+		}
+	}
+	_ = repo.Close()
+	return ""
+}
+
 func runMock(v Vec, dir string) string {
 	repo := repository.NewMockRepo()
 	_, err := repo.GetOrCreateClock("x-edit")
@@ -240,7 +290,7 @@ func Run(args []string) {
 		persist bool
 		f       func(Vec, string) string
 	}
-	impls := []im{{"MemClock", false, runMem}, {"PersistedClock", true, runPersisted}, {"GoGitRepo", true, runRepo}, {"MockRepo", false, runMock}}
+	impls := []im{{"MemClock", false, runMem}, {"PersistedClock", true, runPersisted}, {"GoGitRepo", true, runRepo}, {"GoGitRepo (kept handle)", true, runRepoHandle}, {"MockRepo", false, runMock}}
 	executed := make([]int, len(lines))
 	hx.Parallel(len(lines), 0, func(i int) {
 		var v Vec
